@@ -283,6 +283,10 @@ func (s *session) battery2(r *run, rnd interface{ Intn(int) int }, g, w *gen.EG,
 }
 
 func (s *session) chk(r *run, name string, want string) {
+	// the same on the real graph: status closed along edges, ≥ intrinsic, edge rows = nodes
+	if eg, ok := egOf(s.u, s.regs[name]); eg != nil && !(ok && isWF(eg)) {
+		s.laws = append(s.laws, "result "+name+" of the real operations is not well-formed (status not closed along edges / below intrinsic / edge rows differ from nodes)")
+	}
 	s.emit(r, "chk "+name)
 	r.expects = append(r.expects, expectation{s, "chk " + name, want, false})
 }
